@@ -252,12 +252,22 @@ func BoolC(b bool) *Term {
 func Var(name string, s Sort) *Term { return intern(&Term{Op: "var", S: s, Name: name}) }
 
 var freshCtr = map[string]int{}
+var freshScope = ""
+
+// SetFreshScope starts a new naming scope for fresh variables: the counters restart and every name carries the scope
+// tag. The verification conditions of a function are generated inside the scope of that function, so their text (and
+// with it the answer-cache key) does not depend on which other functions were verified before it in the same run,
+// while names of different scopes can never coincide (terms cached across functions keep their own scope tag).
+func SetFreshScope(scope string) {
+	freshCtr = map[string]int{}
+	freshScope = scope
+}
 
 // Fresh makes a fresh variable with the given name hint.
 func Fresh(hint string, s Sort) *Term {
 	hint = Mangle(hint)
 	freshCtr[hint]++
-	return Var(fmt.Sprintf("%s!%d", hint, freshCtr[hint]), s)
+	return Var(fmt.Sprintf("%s!%s%d", hint, freshScope, freshCtr[hint]), s)
 }
 
 // Mangle turns an arbitrary string into a safe SMT symbol body.
